@@ -669,6 +669,11 @@ def handle : List Sexp → Sexp
     match bool? fix, cfg? cfg, ops.mapM op? with
     | some fix, some (a, nd), some ops => .list (.atom "trace" :: trace fix (init a nd) ops)
     | _, _, _ => Sexp.err "bad-args"
+  -- the same, the trace entries of the first `k` operations (a shared, already checked prefix) are omitted
+  | [.atom "run-from", k, fix, cfg, .list ops] =>
+    match nat? k, bool? fix, cfg? cfg, ops.mapM op? with
+    | some k, some fix, some (a, nd), some ops => .list (.atom "trace" :: (trace fix (init a nd) ops).drop k)
+    | _, _, _, _ => Sexp.err "bad-args"
   | [.atom "judge", st] =>
     match state? st with
     | some s => .list [.atom "judge", .atom (judge s)]
